@@ -1,8 +1,10 @@
 package scen
 
 import (
+	"errors"
 	"fmt"
 	"os"
+	"regexp"
 	"runtime"
 	"strings"
 	"syscall"
@@ -39,6 +41,8 @@ var (
 	c13pGCBoth    = sim.RegStat("probe:c13-gc-between-read-and-write-completion")
 	c13pFinalizer = sim.RegStat("probe:c13-conn-finalizer-ran")
 )
+
+var c13TempName = regexp.MustCompile(`sonic-mirrored-buffer-[0-9]+`)
 
 var c13Errno = map[sim.CallKind]syscall.Errno{
 	sim.CkFdAlloc: syscall.EMFILE, sim.CkSocket: syscall.ENFILE, sim.CkBind: syscall.EADDRINUSE, sim.CkListen: syscall.EADDRINUSE,
@@ -335,6 +339,10 @@ func runC13Enum(c *Ctx, v int) {
 		}
 		e.arm = nil
 		w.Drain(3_000_000_000)
+		if err != nil {
+			// temporary file names are random: they must not enter the trace
+			err = errors.New(c13TempName.ReplaceAllString(err.Error(), "sonic-mirrored-buffer-*"))
+		}
 		w.Tracef("c13 %s %s -> err=%v", cs.name, label, err)
 		if err != nil {
 			w.Stat(c13pFailed)
